@@ -215,6 +215,12 @@ func (g *gen) testChunk(failing bool) chunk {
 		g.mark("lexical:comment-before-paren")
 		return chunk{kind: kind, src: "func " + name + " /* c */ () bool {\n\treturn true\n}\n"}
 	}
+	if vgen.Chance(g.t, "variadic", 12) {
+		// still callable as f(): a test like any other (seeded change C18-10: one generator skipped
+		// every function with a non-empty parameter list)
+		g.mark("test with a variadic parameter only")
+		return chunk{kind: kind, src: "func " + name + "(extra ...uint64) bool {\n\treturn len(extra) == 0\n}\n"}
+	}
 	return chunk{kind: kind, src: g.niladic(name)}
 }
 
